@@ -236,13 +236,17 @@ func inject(r *report.Run, l *sim.Lock, st *step, fork int) *report.Failure {
 		r.NonTrivial(fmt.Sprintf("cancel|%s|%s|%s", forkName, st.kind, site))
 		// second mode: the cancellation is visible to this polling function only; a poll that saw it
 		// must still turn the whole step into an error (a swallowed cancellation cannot hide behind a later poll)
+		// Block steps run this mode with validate_result=false: a swallowed cancellation that merely skipped
+		// work must not be "reported" by the state-root comparison at the very end.
 		oc := &countingCtx{Context: context.Background(), failFrom: k, siteOnly: true}
-		_, err, panicked = runStep(l, l.LibSpec, oc, st)
+		so := *st
+		so.noValidate = st.kind == "block"
+		_, err, panicked = runStep(l, l.LibSpec, oc, &so)
 		r.Eval(1)
 		if panicked {
 			return report.Failf("cancel/panic", "%s %s step at slot %d, cancellation seen only by poll %d/%d (%s): %v", forkName, st.kind, st.slot, k, n, site, err)
 		}
-		if err == nil {
+		if err == nil && oc.polls >= k { // (a poll that only exists on the validating path is never reached here)
 			return report.Failf("cancel/swallowed:"+site, "%s %s step at slot %d reports success although poll %d of %d (in %s) observed a cancelled context", forkName, st.kind, st.slot, k, n, site)
 		}
 	}
